@@ -112,7 +112,7 @@ pub fn spell_bytes_v(rng: &mut Rng, decoded: &[u8], query: bool, respell: bool, 
     let mut out = Vec::new();
     for &c in decoded {
         if !respell {
-            if rs::unreserved(c) || (literal_plus && c == b'+' && !query) {
+            if rs::unreserved(c) || (literal_plus && c == b'+' && !query) || (raw_eq && c == b'=') {
                 out.push(c);
             } else {
                 out.extend_from_slice(format!("%{:02X}", c).as_bytes());
@@ -193,11 +193,14 @@ pub fn random_logical(rng: &mut Rng) -> Logical {
     }
     let trailing_slash = nseg > 0 && rng.chance(1, 5);
     let names: [&[u8]; 9] = [b"a", b"a-", b"a.", b"b", b"Action", b"k 1", b"", b"\xc3\xa9", b"a0"];
-    let mut query = Vec::new();
+    let mut query: Vec<(Vec<u8>, Vec<u8>)> = Vec::new();
     for _ in 0..rng.below(5) {
         let k = if rng.chance(4, 5) { rng.pick(&names).to_vec() } else { (0..rng.below(4)).map(|_| seg_byte(rng)).collect() };
         let v: Vec<u8> = (0..rng.below(5)).map(|_| seg_byte(rng)).collect();
         query.push((k, v));
+    }
+    if rng.chance(1, 4) {
+        query.push((b"Filter".to_vec(), rng.pick(&[&b"a=b"[..], b"b=c=d", b"=", b"x=="]).to_vec()));
     }
     let fold = if s3 { rng.chance(1, 6) } else { rng.chance(1, 3) };
     let is_form = rng.chance(1, 3);
@@ -215,6 +218,11 @@ pub fn random_logical(rng: &mut Rng) -> Logical {
             " application/x-www-form-urlencoded ; Charset=utf8",
             "application/x-www-form-urlencoded; boundary=x; charset=unicode-1-1-utf-8",
         ]);
+        // names shared between URL and form body (the folding merge must keep both), exact duplicates too
+        if !f.is_empty() && rng.chance(1, 2) {
+            let (k, v) = f[rng.below(f.len())].clone();
+            query.push((k.clone(), if rng.chance(1, 3) { v } else { b"url-value".to_vec() }));
+        }
         (Some(f), Some(ct.to_string()), Vec::new())
     } else {
         let l = rng.below(40);
